@@ -38,7 +38,17 @@ def run_feedforward(case, ctx):
         kwargs['gyro_model'] = gm
         kwargs['accel_model'] = am
     if with_inc:
-        kwargs['increments'] = sc.increments
+        inc = sc.increments
+        if case.get('inc_cover', 'full') == 'holes' and len(inc) > 2:
+            # an increments table that does not cover every row interval (outage, late start, early end): some slices are empty
+            rs = np.random.RandomState(case['sub'] ^ 0x401e)
+            drop = rs.rand(len(inc)) < 0.25
+            drop[[0, -1]] |= rs.rand(2) < 0.5
+            if drop.all():
+                drop[len(inc) // 2] = False
+            inc = inc.loc[~drop]
+            ctx.label('increments_cover=holes')
+        kwargs['increments'] = inc
     ctx.label('increments=yes' if with_inc else 'increments=no')
     meas = sc.meas_arg()
     if meas is not None or case['sub'] % 3 == 0:
